@@ -60,7 +60,8 @@ ObsCall(e) ==
   \*  completion is not "a callback after Close" in the sense of the statement)
   ELSE /\ ops' = ops @@ (e.op :> [o |-> e.o, dir |-> e.dir, st |-> "run", ret |-> FALSE, err |-> "",
                                    late |-> (e.o \in DOMAIN ost /\ ost[e.o] # "open"),
-                                   all |-> e.api = "readall"])   \* one operation that moves e.n units
+                                   all |-> e.api = "readall",    \* one operation that moves e.n units
+                                   big |-> e.api = "writetobig"]) \* a datagram too large to send: fails at once
        /\ UNCHANGED <<kinds, cls, lim, base, ost, csnap, tm, posted, ranp, anomaly, rnext, bad>>
 
 ObsRet(e) ==
@@ -76,7 +77,9 @@ ObsCbB(e) ==
     IF r.st = "done" THEN Fail("C01/double-completion/" \o Kind(r.o))
     ELSE IF ost[r.o] = "closed" /\ ~r.late THEN Fail("C01/callback-after-close/" \o Kind(r.o))
     ELSE IF cls = "chain" /\ e.depth > lim + 1 THEN Fail("C14/depth/" \o Kind(r.o))
-    ELSE IF cls = "chain" /\ e.err # "nil" THEN Fail("C14/deferred-result/" \o Kind(r.o))
+    ELSE IF cls = "chain" /\ ~r.big /\ e.err # "nil" THEN Fail("C14/deferred-result/" \o Kind(r.o))
+    \* an operation that fails at once is an immediate completion too: inline or deferred, its result is the error
+    ELSE IF cls = "chain" /\ r.big /\ e.err = "nil" THEN Fail("C14/deferred-result/" \o Kind(r.o) \o ":no-error")
     \* a successful read / accept / datagram read delivers the oldest unit the peer queued (tokens count up
     \* per object); in a chain this is "the result it would have had inline"
     ELSE IF r.dir = "R" /\ e.err = "nil" /\ e.n > 0 /\ e.tok # rnext[r.o] /\ cls = "chain" /\ "C14" \in Focus
@@ -235,6 +238,7 @@ Obs(e) ==
     [] e.ev = "CloseB"   -> ObsCloseB(e)
     [] e.ev = "CloseE"   -> ObsCloseE(e)
     [] e.ev = "Env"      -> Skip
+    [] e.ev = "TNew"     -> Skip      \* a timer is created in mid-scenario
     [] e.ev = "Open"     -> Skip      \* an object is created in mid-scenario (nothing of it was observable before)
     [] e.ev = "PollB"    -> ObsPollB(e)
     [] e.ev = "PollE"    -> ObsPollE(e)
